@@ -214,6 +214,9 @@ def run(rep: core.Report):
     _run_main(rep)
     shared_trunc.run(rep, "R02g")
     _r02h(rep)
+    from rules import shared_sorted
+
+    shared_sorted.run(rep, "R02j", ["phonopy/harmonic/dynamical_matrix.py", "phonopy/harmonic/dynmat_to_fc.py", "phonopy/structure/cells.py"])
     from rules import shared_bcast
 
     shared_bcast.run(rep, "R02i", [r for r in ["phonopy/harmonic/dynamical_matrix.py", "phonopy/harmonic/dynmat_to_fc.py", "phonopy/harmonic/force_constants.py"] if (core.REPO / r).is_file()])
